@@ -38,7 +38,7 @@ theorem C10_load_roundtrip (H : Heap) (tupK : Nat → Bool) (hwf : KindsWF H tup
       -- the value returned is the image of the root
       v = phi H m' S.memo root ∧
       -- every pickled object is rebuilt: same kind, same ordered children (images)
-      (∀ o ∈ m', ∃ tup k bs as r, H o = .node tup k bs as ∧ phi H m' S.memo o = .ref r ∧
+      (∀ o ∈ m', ∃ tup k bs as r, H o = .node tup k bs as ∧ phi H m' S.memo o = .ref r ∧ Val.ref r ∈ S.memo ∧
         S.heap r = ⟨k, bs.map (phi H m' S.memo), if tup then [] else as.map (phi H m' S.memo)⟩) ∧
       -- one new object per original object: sharing is preserved and nothing is merged
       (∀ o ∈ m', ∀ o' ∈ m', phi H m' S.memo o = phi H m' S.memo o' → o = o') ∧
@@ -69,8 +69,8 @@ theorem C10_load_roundtrip (H : Heap) (tupK : Nat → Bool) (hwf : KindsWF H tup
     rw [this, h4, h5, g1]
   refine ⟨_, S, hload, rfl, ?_, ?_, hk, ?_⟩
   · intro o ho
-    obtain ⟨tup, k, bs, as, r, i, h1, _, _, h3, h4, _⟩ := node o ho
-    exact ⟨tup, k, bs, as, r, h1, h3, h4⟩
+    obtain ⟨tup, k, bs, as, r, i, h1, h2, _, h3, h4, _⟩ := node o ho
+    exact ⟨tup, k, bs, as, r, h1, h3, List.mem_of_getElem? h2, h4⟩
   · intro o ho o' ho' he
     obtain ⟨_, _, _, _, r, i, _, h2, hm, h3, _⟩ := node o ho
     obtain ⟨_, _, _, _, r', j, _, h2', hm', h3', _⟩ := node o' ho'
